@@ -696,6 +696,7 @@ func (a *analysis) checkControl(x *verifkit.Exec) {
 	calls := map[int]verifkit.Event{}
 	callLive, callStatus := map[int]bool{}, map[int]string{}
 	startInFlight, startInFlightStatus := 0, ""
+	failedBuildSeen := false
 	for _, e := range a.evs {
 		switch {
 		case (isSource(e.Comp) || isDest(e.Comp) || e.Comp == "dlq") && e.Kind == "open":
@@ -736,6 +737,8 @@ func (a *analysis) checkControl(x *verifkit.Exec) {
 					startInFlight, startInFlightStatus = n, status
 				}
 			}
+		case e.Comp == "ctl" && e.Kind == "start.ret" && strings.Contains(e.Arg, "verif: plugin"):
+			failedBuildSeen = true
 		case e.Comp == "ctl" && strings.HasPrefix(e.Kind, "hist."):
 			op := strings.TrimSuffix(strings.TrimPrefix(e.Kind, "hist."), ".ret")
 			if op == "start" && e.Idx == startInFlight {
@@ -770,7 +773,13 @@ func (a *analysis) checkControl(x *verifkit.Exec) {
 			case "start":
 				if res[0] != "nil" && !liveRun && memStatus != "Running" && memStatus != "Recovering" && a.healthy && !strings.Contains(res[0], "verif:") &&
 					!liveAtCall && statusAtCall != "Running" && statusAtCall != "Recovering" {
-					a.bad("C11/start-refused-after-run-ended", "Start failed (%s) although no run is live (status %s): the previous run was not fully released (event #%d)", res[0], memStatus, e.Seq)
+					key := "C11/start-refused-after-run-ended"
+					if strings.Contains(res[0], "processor already running") && failedBuildSeen {
+						// an earlier Start failed while building its nodes (a plugin could not be dispensed) after it had
+						// already reserved the pipeline's processors
+						key += "/failed-start-leaks-processor-reservation/" + a.p.Engine
+					}
+					a.bad(key, "Start failed (%s) although no run is live (status %s): the previous run was not fully released (event #%d)", res[0], memStatus, e.Seq)
 				}
 			}
 		}
